@@ -76,12 +76,12 @@ def _short(pr):
     return ','.join(('' if v else '!') + k[:34] for k, v in pr.facts)[:110]
 
 
-def container_scenarios(repo):
+def container_scenarios(repo, nmax=2):
     """(label, fn, value, kwargs) for the container printers"""
     out = []
     fseq = S.printer_for(repo, 'list')
     for base in ('list', 'tuple', 'set'):
-        for n in (0, 1, 2):
+        for n in range(0, nmax + 1):
             out.append((base, n, fseq))
     fd = S.printer_for(repo, 'dict')
     for n in (0, 1, 2):
@@ -102,7 +102,7 @@ def run(repo, rep):
     # ---------------------------------------------------------------- C08.b containers
     n = 0
     itb = S.interp(repo, 'printer', {'pretty_str': S.p_pretty_str_as_sub})
-    for base, nel, fn in container_scenarios(repo):
+    for base, nel, fn in container_scenarios(repo, S.bound(rep, 2, 3)):
         tname = 'Sub_' + base
         v = ValueV('value', S.type_scenario(base, False), [Sym('x%d' % i) for i in range(nel)])
         vn = ValueV('value', S.type_scenario(base, True), [Sym('x%d' % i) for i in range(nel)])
